@@ -67,6 +67,74 @@ NeighborsK1OK(e) ==      \* gridDisk(k=1): exactly 6 (5) distinct valid same-res
 MaxDiskSizeOK(e) ==
   IF e.k < 0 THEN e.r = E_DOMAIN ELSE e.r = E_SUCCESS /\ e.n = MaxDiskSize(e.k)     \* small k only
 
+\* ---- C10: directed edges -------------------------------------------------------------------
+OriginOf(x) == <<High(x) * 262144 + 16384 + (x[1] % 2048), x[2], x[3], x[4]>>      \* mode := 1, reserved := 0
+EdgeValidW(x) ==
+  /\ Mode(x) = 2 /\ Rsv(x) \in 1..6
+  /\ ValidCell(OriginOf(x))
+  /\ ~(IsPentC(CellOf(OriginOf(x))) /\ Rsv(x) = 1)
+Untouched(w) == w = <<349525, 10922, 21845, 10922>>
+
+\* originToDirectedEdges(h) with, per slot, what the decode functions and cellsToDirectedEdge returned
+\*   e.es[i] edge ; e.ed[i] = [v |-> isValidDirectedEdge, ro, o |-> origin, rd, d |-> destination,
+\*                             rc, c1, c2 |-> directedEdgeToCells, rce, ce |-> cellsToDirectedEdge(h, d)]
+EdgeNbhdOK(e) ==
+  LET c == CellOf(e.h)   Nc == WordsOf(N(c))
+      live == {i \in 1..6 : ~IsNull(e.es[i])} IN
+  /\ e.r = E_SUCCESS
+  /\ live = (IF IsPentC(c) THEN 2..6 ELSE 1..6)
+  /\ \A i \in live :
+       LET x == e.es[i]   q == e.ed[i] IN
+       /\ Mode(x) = 2 /\ OriginOf(x) = e.h /\ EdgeValidW(x) /\ q.v = 1
+       /\ q.ro = 0 /\ q.o = e.h
+       /\ q.rd = 0 /\ q.d \in Nc
+       /\ q.rc = 0 /\ q.c1 = e.h /\ q.c2 = q.d
+       /\ q.rce = 0 /\ q.ce = x                            \* encoding the pair gives this very edge back
+  /\ {e.ed[i].d : i \in live} = Nc                         \* exactly the neighbours, once each
+  /\ Cardinality({e.es[i] : i \in live}) = Cardinality(Nc)
+
+CellsToEdgeOK(e) ==     \* arbitrary pairs of valid cells
+  IF ValidCell(e.a) /\ ValidCell(e.b) /\ Res(e.a) = Res(e.b) /\ CellOf(e.b) \in N(CellOf(e.a))
+  THEN e.r = E_SUCCESS /\ Mode(e.o) = 2 /\ OriginOf(e.o) = e.a /\ EdgeValidW(e.o)
+  ELSE e.r = E_NOT_NEIGHBORS /\ Untouched(e.o)
+
+IsValidEdgeOK(e) == (e.o = 1) = EdgeValidW(e.x) /\ e.o \in {0, 1}
+
+\* ---- C11: vertexes ------------------------------------------------------------------------------
+VSet(vs) == {vs[i] : i \in {j \in 1..Len(vs) : ~IsNull(vs[j])}}
+MinWord(S) == CHOOSE w \in S : \A v \in S : WordLeq(w, v)
+\* cellToVertexes of a cell and of each of its neighbours; cellToVertex for numbers -2..8
+VertexNbhdOK(e) ==
+  LET c == CellOf(e.h)   Nc == WordsOf(N(c))
+      nv == IF IsPentC(c) THEN 5 ELSE 6
+      V == VSet(e.vs)
+      NbV == [b \in {e.nb[i].b : i \in 1..Len(e.nb)} |-> VSet((CHOOSE q \in Range(e.nb) : q.b = b).vs)]
+      Tri == {t \in SUBSET Nc : Cardinality(t) = 2 /\ \E x \in t : \E y \in t : x # y /\ CellOf(y) \in N(CellOf(x))}
+      Common(t) == V \cap (NbV[CHOOSE x \in t : TRUE]) \cap (NbV[CHOOSE y \in t : y # (CHOOSE x \in t : TRUE)])
+  IN
+  /\ e.r = E_SUCCESS
+  /\ DOMAIN NbV = Nc                                                    \* the driver listed exactly the neighbours
+  /\ \A i \in 1..6 : IsNull(e.vs[i]) = (i > nv)                         \* five plus one null slot for a pentagon
+  /\ Cardinality(V) = nv
+  /\ \A v \in V : /\ Mode(v) = 4 /\ High(v) = 0 /\ ValidCell(OriginOf(v))
+                  /\ Rsv(v) < (IF IsPentC(CellOf(OriginOf(v))) THEN 5 ELSE 6)
+  \* corners = triangles of the neighbour graph; one index per corner, shared by its three cells, owned by the lowest
+  /\ Cardinality(Tri) = nv
+  /\ \A t \in Tri : /\ Cardinality(Common(t)) = 1
+                    /\ OriginOf(CHOOSE v \in Common(t) : TRUE) = MinWord(t \cup {e.h})
+  /\ Cardinality(UNION {Common(t) : t \in Tri}) = nv                    \* every corner of the cell is one of them
+  /\ \A b \in Nc : Cardinality(V \cap NbV[b]) = 2                       \* neighbours share exactly two
+  /\ \A b1 \in Nc : \A b2 \in Nc : (b1 # b2 /\ CellOf(b2) \notin N(CellOf(b1))) => Cardinality(NbV[b1] \cap NbV[b2]) < 2
+  \* cellToVertex(cell, i) agrees with slot i; out-of-range numbers give E_DOMAIN
+  /\ \A k \in 1..Len(e.cv) :
+       LET q == e.cv[k] IN
+       IF q.i \in 0..(nv - 1) THEN q.r = E_SUCCESS /\ q.o = e.vs[q.i + 1]
+       ELSE q.r = E_DOMAIN /\ Untouched(q.o)
+
+\* isValidVertex(x); e.ov = cellToVertexes(owner of x) when that owner is a valid cell, else <<>>
+IsValidVertexOK(e) ==
+  (e.o = 1) = (Mode(e.x) = 4 /\ ValidCell(OriginOf(e.x)) /\ e.x \in VSet(e.ov))
+
 EvOK(e) ==
   /\ (Has(e, "h") => ValidCell(e.h))
   /\ CASE e.e = "diskSafe"      -> DiskSafeOK(e)
@@ -76,6 +144,11 @@ EvOK(e) ==
        [] e.e = "areNeighbors"  -> AreNeighborsOK(e)
        [] e.e = "neighborsK1"   -> NeighborsK1OK(e)
        [] e.e = "maxGridDiskSize" -> MaxDiskSizeOK(e)
+       [] e.e = "edgeNbhd"      -> EdgeNbhdOK(e)
+       [] e.e = "cellsToEdge"   -> CellsToEdgeOK(e)
+       [] e.e = "isValidEdge"   -> IsValidEdgeOK(e)
+       [] e.e = "vertexNbhd"    -> VertexNbhdOK(e)
+       [] e.e = "isValidVertex" -> IsValidVertexOK(e)
        [] OTHER -> FALSE
 Init == l = 1
 Next == l <= Len(Tr) /\ IF EvOK(Tr[l]) THEN l' = l + 1 ELSE FALSE
